@@ -27,6 +27,7 @@ CONSTANTS Docs,        \* set of document ids (1..n)
           CtxOf,       \* doc -> context name
           LocalDefs,   \* doc -> names the document's constructs define locally for a part of the document
           FreeNames,   \* doc -> names the document uses outside any construct that defines them
+          Collide,     \* pairs <<k1, k2>> of argument kinds a sloppy cache key would identify (control variant)
           MaxLen, Variant, Emit_
 
 VARIABLES cache, inner, vdepth, frozen, leaked, hist, results
@@ -35,7 +36,10 @@ vars == <<cache, inner, vdepth, frozen, leaked, hist, results>>
 Init == cache = {} /\ inner = {} /\ vdepth = 1 /\ frozen = {} /\ leaked = {} /\ hist = <<>> /\ results = <<>>
 
 Leaks(c) == { x[2] : x \in { y \in leaked : y[1] = c } }
+(* Variant "key_collision": the first kind of a colliding pair to be cached serves both *)
+Shadowed(d) == \E c \in Collide : c[1] \in Uses[d] /\ c[1] \notin cache /\ c[2] \in cache
 Result(d) == IF Variant = "as_implemented" /\ d \in NestedVerb /\ vdepth # 1 THEN "deviant"
+             ELSE IF Variant = "key_collision" /\ Shadowed(d) THEN "deviant"
              ELSE IF FreeNames[d] \cap Leaks(CtxOf[d]) # {} THEN "deviant"      \* a leaked definition changes how the name parses
              ELSE "base"
 Parse(d) ==
